@@ -215,3 +215,65 @@ package rapid
 //@   ensures [released-exactly-the-invoke-subscribers] delta(ReleaseRuntime) <= 1 && (delta(ReleaseRuntime) == 1 ==> delta(ReleaseExt) == ite(extEnabled(), len(lastret(SubscribedExt)), 0) && delta(ReleaseInt) == ite(extEnabled(), len(lastret(SubscribedInt)), 0)) && (delta(ReleaseRuntime) == 0 ==> delta(ReleaseExt) == 0 && delta(ReleaseInt) == 0)
 //@   ensures [not-complete-before-everyone-is-back] r0 == nil ==> delta(ReleaseRuntime) == 1 && delta(AwaitResponseOK) == 1 && delta(AwaitInvokeRuntimeReadyOK) == 1 && (lastret(ActiveExtensionsCheck) ==> delta(AwaitInvokeAgentsReadyOK) == 1)
 //@   ensures [runtime-done-is-truthful] delta(EvInvokeRuntimeDone) <= 1 && delta(EvInvokeRuntimeDoneSuccess) == delta(EvInvokeRuntimeDone) && (delta(EvInvokeRuntimeDone) == 1 ==> first(EvInvokeStart) < first(EvInvokeRuntimeDone) && delta(AwaitResponseOK) == 1 && delta(AwaitInvokeRuntimeReadyOK) == 1)
+
+// ---------------------------------------------------------------------------------------------
+// C09: shutdown choreography
+// ---------------------------------------------------------------------------------------------
+//@ event Terminate = call supervisor/model.(ProcessSupervisor).Terminate
+//@ event KillAny = call supervisor/model.(ProcessSupervisor).Kill
+//@ event ExitedLookup = call rapid.(*shutdownContext).getExitedChannel
+//@ event ExitedLookupFound = ret rapid.(*shutdownContext).getExitedChannel when r1
+//@ event AgentCount = ret core.(RegistrationService).CountAgents
+//@ event ShutdownRuntimeStep = call rapid.(*shutdownContext).shutdownRuntime
+//@ event ShutdownAgentsStep = call rapid.(*shutdownContext).shutdownAgents
+//@ event ClearExited = call rapid.(*shutdownContext).clearExitedChannel
+//@ event ShuttingDownSet = call rapid.(*shutdownContext).setShuttingDown when a1
+//@ event ShuttingDownCleared = call rapid.(*shutdownContext).setShuttingDown when !a1
+//@ event FirstFatalForgotten = call appctx.(ApplicationContext).Delete when a1 == appctx.AppCtxFirstFatalErrorKey
+//@ event SubscribedToShutdown = ret core.(*ExternalAgent).IsSubscribed when r0
+//@ event NotSubscribedToShutdown = ret core.(*ExternalAgent).IsSubscribed when !r0
+//@ event ShutdownSubscriptionAsked = call core.(*ExternalAgent).IsSubscribed when a1 == core.ShutdownEvent
+//@ event SpawnGraceful = call rapid.(*shutdownContext).shutdownAgents$1
+//@ event SpawnKill = call rapid.(*shutdownContext).shutdownAgents$2
+//@ event ExternalAgentsListed = ret core.(RegistrationService).GetExternalAgents
+
+// runtime: SIGTERM first, SIGKILL only from the deadline branch, both addressed to the process that was looked up
+//@ func (*shutdownContext).shutdownRuntime
+//@   requires execCtx != nil && s != nil
+//@   ensures [term-before-kill] delta(ExitedLookup) == 1 && delta(Terminate) == delta(ExitedLookupFound) && delta(KillAny) <= delta(Terminate) && (delta(KillAny) == 1 ==> first(Terminate) < first(KillAny))
+//@   ensures [same-process] delta(Terminate) == 1 ==> lastarg(Terminate, 2).Name == lastarg(ExitedLookup, 1) && lastarg(Terminate, 2).Domain == RuntimeDomain && (delta(KillAny) == 1 ==> lastarg(KillAny, 2).Name == lastarg(ExitedLookup, 1) && lastarg(KillAny, 2).Domain == RuntimeDomain)
+//@   ensures [nothing-else] delta(ReleaseExt) == 0 && delta(RendererSet) == 0 && delta(ClearExited) == 0
+
+// the graceful path of one extension: one SHUTDOWN event (release from next), SIGKILL only from the deadline branch
+//@ func (*shutdownContext).shutdownAgents$1
+//@   requires execCtx != nil && agent != nil
+//@   ensures [one-event-then-maybe-kill] delta(ReleaseExt) == 1 && lastarg(ReleaseExt, 0) == agent && delta(KillAny) <= 1 && (delta(KillAny) == 1 ==> first(ReleaseExt) < first(KillAny) && lastarg(KillAny, 2).Name == name && lastarg(KillAny, 2).Domain == RuntimeDomain) && delta(Terminate) == 0
+
+// an extension not subscribed to SHUTDOWN: killed, no event
+//@ func (*shutdownContext).shutdownAgents$2
+//@   requires execCtx != nil
+//@   ensures [kill-without-event] delta(KillAny) == 1 && lastarg(KillAny, 2).Name == name && lastarg(KillAny, 2).Domain == RuntimeDomain && delta(ReleaseExt) == 0 && delta(Terminate) == 0
+
+//@ func (*shutdownContext).shutdownAgents
+//@   requires execCtx != nil && s != nil
+//@   ensures [shutdown-event-installed-first] delta(RendererSet) == 1 && delta(ExternalAgentsListed) == 1 && first(RendererSet) < first(ExternalAgentsListed) && typeis(lastarg(RendererSet, 1), *rendering.ShutdownRenderer) && lastarg(RendererSet, 1).(*rendering.ShutdownRenderer).AgentEvent.ShutdownReason == reason && lastarg(RendererSet, 1).(*rendering.ShutdownRenderer).AgentEvent.AgentEvent.EventType == "SHUTDOWN"
+//@   ensures [one-goroutine-per-launched-extension] delta(ExitedLookup) == len(lastret(ExternalAgentsListed)) && delta(SpawnGraceful) + delta(SpawnKill) == delta(ExitedLookupFound) && delta(SpawnGraceful) == delta(SubscribedToShutdown) && delta(SpawnKill) == delta(NotSubscribedToShutdown) && delta(ShutdownSubscriptionAsked) == delta(ExitedLookupFound) && delta(SubscribedToShutdown) + delta(NotSubscribedToShutdown) == delta(ExitedLookupFound)
+//@   ensures [no-direct-kill] delta(KillAny) == 0 && delta(Terminate) == 0 && delta(ReleaseExt) == 0
+//@   loop range execCtx.registrationService.GetExternalAgents(): invariant [one-goroutine-per-launched-extension] 0 <= rangeindex + 1 && rangeindex + 1 <= len(lastret(ExternalAgentsListed)) && delta(ExternalAgentsListed) == 1 && delta(ExitedLookup) == rangeindex + 1 && delta(SpawnGraceful) + delta(SpawnKill) == delta(ExitedLookupFound) && delta(SpawnGraceful) == delta(SubscribedToShutdown) && delta(SpawnKill) == delta(NotSubscribedToShutdown) && delta(ShutdownSubscriptionAsked) == delta(ExitedLookupFound) && delta(SubscribedToShutdown) + delta(NotSubscribedToShutdown) == delta(ExitedLookupFound) && delta(KillAny) == 0 && delta(Terminate) == 0 && delta(ReleaseExt) == 0 && delta(RendererSet) == 1 && first(RendererSet) < first(ExternalAgentsListed)
+
+//@ func (*shutdownContext).shutdown
+//@   requires execCtx != nil && s != nil
+//@   ensures [flag-brackets-the-shutdown] delta(ShuttingDownSet) == 1 && delta(ShuttingDownCleared) == 1 && first(ShuttingDownSet) < first(FirstFatalForgotten) && delta(FirstFatalForgotten) == 1 && first(FirstFatalForgotten) < first(AgentCount) && last(ClearExited) < first(ShuttingDownCleared)
+//@   ensures [no-extensions-kill-at-once] delta(AgentCount) == 1 && (lastret(AgentCount) == 0 ==> delta(Terminate) == 0 && delta(ShutdownRuntimeStep) == 0 && delta(ShutdownAgentsStep) == 0 && delta(ExitedLookup) == 1 && delta(KillAny) == delta(ExitedLookupFound) && (delta(KillAny) == 1 ==> lastarg(KillAny, 2).Name == lastarg(ExitedLookup, 1) && lastarg(KillAny, 2).Domain == RuntimeDomain))
+//@   ensures [graceful-otherwise] lastret(AgentCount) != 0 ==> delta(ShutdownRuntimeStep) == 1 && delta(ShutdownAgentsStep) == 1 && first(ShutdownRuntimeStep) < first(ShutdownAgentsStep) && lastarg(ShutdownAgentsStep, 4) == reason
+//@   ensures [waits-for-every-process-before-returning] delta(ClearExited) == 1 && (delta(KillAny) >= 1 ==> last(KillAny) < first(ClearExited)) && (delta(ShutdownAgentsStep) == 1 ==> last(ShutdownAgentsStep) < first(ClearExited))
+
+// the runtime's share of the shutdown budget
+//@ const runtimeDeadlineShare * 10 == 3
+//@ const maxProcessExitWait == 2000000000
+//@ const supervisorBlockingMaxMillis == 9000
+
+// waiting for the exit notifications: success only after every recorded channel was closed; the table is then empty
+//@ func (*shutdownContext).clearExitedChannel
+//@   requires s != nil
+//@   ensures [table-emptied-on-success] r0 == nil ==> len(s.runtimeDomainExited) == 0
